@@ -240,7 +240,7 @@ def run_case(args):
 
 def run(tier, V):
     vi = build('asan')
-    n = 20000 if tier == 'quick' else 300000
+    n = 20000 if tier == 'quick' else 200000
     base = common.seed() * 86028121
     res = pmap(run_case, [(vi, base + i) for i in range(n)], procs=True)
     stats = {}
